@@ -104,9 +104,24 @@ type tcase struct {
 	// serial: run after the parallel phase, alone in one child (Conn-path cases that make the
 	// client allocate 1-2 GiB: several of them at once exhaust a loaded host)
 	serial bool
+	// op "addr": api is how the connection is made (d DialContext, dl Dial, lp LookupPartition,
+	// ld DialLeader, t Transport, tr Transport with a BrokerResolver), addr the class of the dial address
+	api, addr string
+	// op "conc": pattern has one letter per overlapping connection (r right credentials,
+	// w wrong password, n unknown user); they all share ONE Mechanism value
+	pattern string
 }
 
+var addrOf = map[string]string{"num": "broker.test:9092", "noport": "broker.test", "svc": "broker.test:kafka-sasl",
+	"ipv6": "[::1]:9092", "zero": "broker.test:0", "huge": "broker.test:65536", "empty": ""}
+
 func (c tcase) op() string {
+	if c.pattern != "" {
+		return "conc"
+	}
+	if c.api != "" {
+		return "addr"
+	}
 	if c.fkind == saslfake.FRawCut {
 		return "rawcut"
 	}
@@ -130,6 +145,12 @@ func stepS(v int) string {
 }
 
 func (c tcase) args() string {
+	if c.pattern != "" {
+		return fmt.Sprintf("%s %s %s %s", c.path, c.mech, verS(c.hs), c.pattern)
+	}
+	if c.api != "" {
+		return fmt.Sprintf("%s %s %s %s", c.api, c.mech, c.addr, verS(c.hs))
+	}
 	if c.fkind == saslfake.FRawCut {
 		return fmt.Sprintf("%s %s %s %s %s %s", c.path, c.mech, stepS(c.fstep), kvfmt.I(int64(c.rawN)), c.rawEnd, kvfmt.I(int64(c.cutPad)))
 	}
@@ -156,6 +177,24 @@ func parseV(s string) int {
 
 func parseCase(s string) tcase {
 	f := strings.Fields(s)
+	auOf := func(hs int) int {
+		if hs >= 1 {
+			return 1
+		}
+		return saslfake.Absent
+	}
+	if len(f) == 5 && f[0] == "addr" {
+		hs := parseV(f[4])
+		path := "d"
+		if f[1] == "t" || f[1] == "tr" {
+			path = "t"
+		}
+		return tcase{path: path, mech: f[2], hs: hs, au: auOf(hs), cred: "right", fstep: -1, fkind: saslfake.FNone, api: f[1], addr: f[3]}
+	}
+	if len(f) == 5 && f[0] == "conc" {
+		hs := parseV(f[3])
+		return tcase{path: f[1], mech: f[2], hs: hs, au: auOf(hs), cred: "right", fstep: -1, fkind: saslfake.FNone, pattern: f[4]}
+	}
 	if len(f) > 0 && (f[0] == "run" || f[0] == "rawread" || f[0] == "rawcut") {
 		f = f[1:]
 	}
@@ -269,6 +308,39 @@ func enumerate(creds []credEntry) (main, side []tcase) {
 						side = append(side, tcase{path: path, mech: mech, hs: hs, au: au, cred: "right", fstep: step,
 							fkind: fmt.Sprintf("%s%s:-", saslfake.FErrPrefix, kvfmt.I(int64(code)))})
 					}
+				}
+			}
+		}
+	}
+	// the dial address: every class x every way of making the connection x mechanisms x
+	// handshake versions, fault-free
+	for _, api := range []string{"d", "dl", "lp", "ld", "t", "tr"} {
+		path := "d"
+		if api == "t" || api == "tr" {
+			path = "t"
+		}
+		for _, mech := range []string{"plain", "s256", "s512"} {
+			for _, ac := range []string{"num", "noport", "svc", "ipv6", "zero", "huge", "empty"} {
+				for _, hs := range []int{0, 1} {
+					au := saslfake.Absent
+					if hs == 1 {
+						au = 1
+					}
+					side = append(side, tcase{path: path, mech: mech, hs: hs, au: au, cred: "right", fstep: -1, fkind: saslfake.FNone, api: api, addr: ac})
+				}
+			}
+		}
+	}
+	// overlapping authentications over one Mechanism value
+	for _, path := range []string{"d", "t"} {
+		for _, mech := range []string{"plain", "s256", "s512"} {
+			for _, hs := range []int{0, 1} {
+				au := saslfake.Absent
+				if hs == 1 {
+					au = 1
+				}
+				for _, pat := range []string{"rr", "rw", "wr", "rrr", "rwr", "rrrr", "rnwr"} {
+					side = append(side, tcase{path: path, mech: mech, hs: hs, au: au, cred: "right", fstep: -1, fkind: saslfake.FNone, pattern: pat})
 				}
 			}
 		}
@@ -499,27 +571,51 @@ func runCase(c tcase, creds []credEntry, seed int64) outcome {
 	var transport *kafka.Transport
 	var m0, m1 runtime.MemStats
 	runtime.ReadMemStats(&m0)
+	address := "broker.test:9092"
+	if c.api != "" {
+		address = addrOf[c.addr]
+		o.feats = append(o.feats, "api="+c.api, "addr="+c.addr)
+	}
 	go func() {
 		ctx, cancel := context.WithTimeout(context.Background(), 6*time.Second)
 		defer cancel()
 		var rt ret
 		if c.path == "d" {
 			d := &kafka.Dialer{ClientID: "c18", DialFunc: dial, SASLMechanism: mech, Timeout: 6 * time.Second}
-			conn, err := d.DialContext(ctx, "tcp", "broker.test:9092")
+			var conn *kafka.Conn
+			var err error
+			switch c.api {
+			case "dl":
+				conn, err = d.Dial("tcp", address)
+			case "lp":
+				// dials, reads the partitions and closes by itself
+				_, err = d.LookupPartition(ctx, "tcp", address, "t", 0)
+			case "ld":
+				// LookupPartition on the address, then a second connection to the leader
+				conn, err = d.DialLeader(ctx, "tcp", address, "t", 0)
+			default:
+				conn, err = d.DialContext(ctx, "tcp", address)
+			}
 			rt.err = err
 			mu.Lock()
 			if len(conns) > 0 {
 				rt.closedAt = conns[0].isClosed()
 			}
 			mu.Unlock()
-			if err == nil {
+			if err == nil && (c.api == "lp" || c.api == "ld") {
+				rt.closedAt = false // the first connection was used and closed by the library's own lookup
+			}
+			if err == nil && conn != nil {
 				conn.SetDeadline(time.Now().Add(4 * time.Second))
 				_, rt.useErr = conn.ReadPartitions("t")
 				conn.Close()
 			}
 		} else {
 			transport = &kafka.Transport{ClientID: "c18", Dial: dial, SASL: mech, DialTimeout: 6 * time.Second, MetadataTTL: 1000 * time.Hour}
-			_, err := transport.RoundTrip(ctx, kafka.TCP("broker.test:9092"), &metadata.Request{TopicNames: []string{"t"}})
+			if c.api == "tr" {
+				transport.Resolver = staticResolver{}
+			}
+			_, err := transport.RoundTrip(ctx, kafka.TCP(address), &metadata.Request{TopicNames: []string{"t"}})
 			rt.err = err
 			mu.Lock()
 			if len(conns) > 0 {
@@ -530,12 +626,18 @@ func runCase(c tcase, creds []credEntry, seed int64) outcome {
 		done <- rt
 	}()
 
+	// the Conn path allocates the announced length: 1-2 GiB of page zeroing can take long on
+	// a starved host
+	watchdog := 9 * time.Second
+	if c.fkind == saslfake.FRawResp && c.path == "d" && c.rawPrefix >= 1<<30 {
+		watchdog = 60 * time.Second
+	}
 	var rt ret
 	select {
 	case rt = <-done:
 		runtime.ReadMemStats(&m1)
 		o.alloc = m1.TotalAlloc - m0.TotalAlloc
-	case <-time.After(9 * time.Second):
+	case <-time.After(watchdog):
 		mu.Lock()
 		active = false
 		for _, e := range ends {
@@ -560,30 +662,42 @@ func runCase(c tcase, creds []credEntry, seed int64) outcome {
 	mu.Lock()
 	js := append([]*saslfake.Journal(nil), journals...)
 	mu.Unlock()
-	// The journal is read only after the broker goroutine of every connection has finished
-	// (it ends when the client closes or the script closes): a journal snapshotted earlier
-	// could miss tokens.  A connection still open after 15 s is reported as such (UNSETTLED),
-	// never as a possibly truncated journal.
+	// The journal is read only after the broker goroutine of every connection has FINISHED (it
+	// ends when the client closes or the script closes), never while it may still be adding
+	// tokens.  A connection the client leaves open is given 500 ms (late writes of a faulty
+	// client are still journalled), then the broker's end is closed: net.Pipe writes are
+	// synchronous, so everything the client wrote before the call returned has been read by
+	// then, and the goroutine adds its token before it notices the close.  If a goroutine has
+	// not ended 20 s later the case is UNSETTLED (no verdict), never a truncated journal.
 	unsettled := false
-	for _, j := range js {
+	for i, j := range js {
 		select {
 		case <-j.ClientGone():
-		case <-time.After(15 * time.Second):
+			continue
+		case <-time.After(500 * time.Millisecond):
+			o.notes = append(o.notes, "connection still open 500 ms after the case ended")
+		}
+		mu.Lock()
+		if i < len(ends) {
+			ends[i].Close()
+		}
+		mu.Unlock()
+		select {
+		case <-j.ClientGone():
+		case <-time.After(20 * time.Second):
 			unsettled = true
-			o.notes = append(o.notes, "connection still open 15 s after the case ended")
 		}
 	}
 	if unsettled {
-		mu.Lock()
-		for _, e := range ends {
-			e.Close()
-		}
-		mu.Unlock()
 		o.res = "UNSETTLED"
 		return o
 	}
 	if len(js) == 0 {
 		o.res = "NOCONN"
+		if rt.err != nil {
+			o.res = "NOCONN E=1"
+			o.notes = append(o.notes, "error: "+rt.err.Error())
+		}
 		return o
 	}
 	e := "0"
@@ -600,6 +714,14 @@ func runCase(c tcase, creds []credEntry, seed int64) outcome {
 		tj = strings.Join(toks, ",")
 	}
 	o.res = fmt.Sprintf("J=%s E=%s C=%s", tj, e, cl)
+	if c.api == "ld" {
+		// the journal of the second connection (to the partition leader)
+		x := "-"
+		if len(js) > 1 {
+			x = strings.Join(js[1].Tokens(), ",")
+		}
+		o.res += " X=" + x
+	}
 	if c.fkind == saslfake.FRawResp || c.fkind == saslfake.FRawCut {
 		o.res += " K=" + errClass(rt.err, rt.useErr)
 	}
@@ -649,6 +771,215 @@ func runCase(c tcase, creds []credEntry, seed int64) outcome {
 	for _, j := range js {
 		o.notes = append(o.notes, j.Notes()...)
 	}
+	return o
+}
+
+type staticResolver struct{}
+
+func (staticResolver) LookupBrokerIPAddr(ctx context.Context, b kafka.Broker) ([]net.IPAddr, error) {
+	return []net.IPAddr{{IP: net.IPv4(127, 0, 0, 1)}}, nil
+}
+
+// runConc: len(pattern) authentications that overlap in time and share ONE Mechanism value:
+// a Dialer used from several goroutines, or one Transport asked for several clusters at once.
+// Connection i talks to "broker-<i>.test:9092"; its broker knows the right password, another
+// password or another user according to pattern[i]; every broker holds its answer to the first
+// authentication message until the first messages of all connections have arrived.
+func runConc(c tcase, creds []credEntry, seed int64) outcome {
+	ce := creds[0]
+	n := len(c.pattern)
+	var o outcome
+	o.feats = append(o.feats, "path="+c.path, "mech="+c.mech, "hs="+verS(c.hs), "auth="+verS(c.au), "cred=mixed",
+		"conc="+strconv.Itoa(n), "pattern="+c.pattern)
+	r := rand.New(rand.NewSource(seed ^ int64(len(c.args()))*7368787))
+	salt := make([]byte, 16)
+	r.Read(salt)
+	var mech sasl.Mechanism
+	var err error
+	switch c.mech {
+	case "plain":
+		mech = plain.Mechanism{Username: ce.user, Password: ce.pass}
+	case "s256":
+		mech, err = scram.Mechanism(scram.SHA256, ce.user, ce.pass)
+	case "s512":
+		mech, err = scram.Mechanism(scram.SHA512, ce.user, ce.pass)
+	}
+	if err != nil {
+		o.res = "MECHERR"
+		return o
+	}
+	// the barrier: all first authentication messages have arrived (or 3 s have passed)
+	var bmu sync.Mutex
+	arrived := 0
+	all := make(chan struct{})
+	overlap := true
+	barrier := func() {
+		bmu.Lock()
+		arrived++
+		if arrived == n {
+			close(all)
+		}
+		bmu.Unlock()
+		select {
+		case <-all:
+		case <-time.After(3 * time.Second):
+			bmu.Lock()
+			overlap = false
+			bmu.Unlock()
+		}
+	}
+	scripts := make([]*saslfake.Script, n)
+	for i := 0; i < n; i++ {
+		snonce := make([]byte, 18)
+		for k := range snonce {
+			snonce[k] = "ABCDEFGHIJKLMNOPQRSTUVWXYZabcdefghijklmnopqrstuvwxyz0123456789"[r.Intn(62)]
+		}
+		var db saslfake.DB
+		switch c.pattern[i] {
+		case 'r':
+			db = saslfake.DB{{Name: ce.suser, Password: ce.spass, Salt: salt, Iter: 4096}}
+		case 'w':
+			db = saslfake.DB{{Name: ce.suser, Password: ce.spass + "~other", Salt: salt, Iter: 4096}}
+		default:
+			db = saslfake.DB{{Name: ce.suser + "-someone-else", Password: ce.spass, Salt: salt, Iter: 4096}}
+		}
+		scripts[i] = &saslfake.Script{HsMax: c.hs, AuthMax: c.au, Mechs: []string{"PLAIN", "SCRAM-SHA-256", "SCRAM-SHA-512"},
+			DB: db, SNonce: string(snonce), FaultStep: -1, FaultKind: saslfake.FNone, Barrier: barrier}
+	}
+	var mu sync.Mutex
+	journals := make([][]*saslfake.Journal, n)
+	conns := make([][]*recConn, n)
+	var ends []net.Conn
+	active := true
+	dial := func(ctx context.Context, network, address string) (net.Conn, error) {
+		mu.Lock()
+		defer mu.Unlock()
+		var i int
+		if _, err := fmt.Sscanf(address, "broker-%d.test:9092", &i); err != nil || i < 0 || i >= n || !active {
+			return nil, errors.New("c18: unexpected dial " + address)
+		}
+		cli, srv := net.Pipe()
+		rc := &recConn{Conn: cli}
+		conns[i] = append(conns[i], rc)
+		ends = append(ends, srv)
+		journals[i] = append(journals[i], saslfake.Serve(srv, scripts[i]))
+		return rc, nil
+	}
+	type ret struct {
+		err, useErr error
+		closedAt    bool
+	}
+	rets := make([]ret, n)
+	var transport *kafka.Transport
+	if c.path == "t" {
+		transport = &kafka.Transport{ClientID: "c18", Dial: dial, SASL: mech, DialTimeout: 6 * time.Second, MetadataTTL: 1000 * time.Hour}
+	}
+	dialer := &kafka.Dialer{ClientID: "c18", DialFunc: dial, SASLMechanism: mech, Timeout: 6 * time.Second}
+	var wg sync.WaitGroup
+	for i := 0; i < n; i++ {
+		wg.Add(1)
+		go func(i int) {
+			defer wg.Done()
+			ctx, cancel := context.WithTimeout(context.Background(), 6*time.Second)
+			defer cancel()
+			addr := fmt.Sprintf("broker-%d.test:9092", i)
+			closed := func() bool {
+				mu.Lock()
+				defer mu.Unlock()
+				return len(conns[i]) > 0 && conns[i][0].isClosed()
+			}
+			if c.path == "d" {
+				conn, err := dialer.DialContext(ctx, "tcp", addr)
+				rets[i].err = err
+				rets[i].closedAt = closed()
+				if err == nil {
+					conn.SetDeadline(time.Now().Add(4 * time.Second))
+					_, rets[i].useErr = conn.ReadPartitions("t")
+					conn.Close()
+				}
+			} else {
+				_, err := transport.RoundTrip(ctx, kafka.TCP(addr), &metadata.Request{TopicNames: []string{"t"}})
+				rets[i].err = err
+				rets[i].closedAt = closed()
+			}
+		}(i)
+	}
+	done := make(chan struct{})
+	go func() { wg.Wait(); close(done) }()
+	select {
+	case <-done:
+	case <-time.After(12 * time.Second):
+		mu.Lock()
+		active = false
+		for _, e := range ends {
+			e.Close()
+		}
+		mu.Unlock()
+		o.res = "HANG"
+		return o
+	}
+	mu.Lock()
+	active = false
+	mu.Unlock()
+	if transport != nil {
+		transport.CloseIdleConnections()
+	}
+	var parts []string
+	for i := 0; i < n; i++ {
+		mu.Lock()
+		js := append([]*saslfake.Journal(nil), journals[i]...)
+		mu.Unlock()
+		if len(js) == 0 {
+			parts = append(parts, "NOCONN")
+			continue
+		}
+		for k, j := range js {
+			select {
+			case <-j.ClientGone():
+				continue
+			case <-time.After(500 * time.Millisecond):
+			}
+			_ = k
+			mu.Lock()
+			for _, e := range ends {
+				e.Close()
+			}
+			mu.Unlock()
+			select {
+			case <-j.ClientGone():
+			case <-time.After(20 * time.Second):
+				o.res = "UNSETTLED"
+				return o
+			}
+		}
+		e, cl := "0", "0"
+		if rets[i].err != nil || rets[i].useErr != nil {
+			e = "1"
+		}
+		if rets[i].closedAt {
+			cl = "1"
+		}
+		toks := js[0].Tokens()
+		tj := "."
+		if len(toks) > 0 {
+			tj = strings.Join(toks, ",")
+		}
+		parts = append(parts, fmt.Sprintf("J=%s E=%s C=%s", tj, e, cl))
+		if rets[i].err != nil {
+			o.notes = append(o.notes, fmt.Sprintf("conn %d error: %v", i, rets[i].err))
+		}
+		if len(js) > 1 {
+			o.feats = append(o.feats, "extra-conn")
+		}
+	}
+	o.res = strings.Join(parts, " / ")
+	bmu.Lock()
+	if overlap {
+		o.feats = append(o.feats, "overlap-forced")
+	} else {
+		o.feats = append(o.feats, "overlap-timeout")
+	}
+	bmu.Unlock()
 	return o
 }
 
@@ -709,7 +1040,13 @@ func child(creds []credEntry, seed int64) {
 		sp := strings.SplitN(line, " ", 2)
 		fmt.Fprintf(out, "BEGIN %s\n", sp[0])
 		out.Flush()
-		o := runCase(parseCase(sp[1]), creds, seed)
+		pc := parseCase(sp[1])
+		var o outcome
+		if pc.pattern != "" {
+			o = runConc(pc, creds, seed)
+		} else {
+			o = runCase(pc, creds, seed)
+		}
 		if len(o.feats) > 5 {
 			sort.Strings(o.feats[5:])
 		}
@@ -739,7 +1076,7 @@ func runWorker(self string, seed int64, ids []int, cases []tcase, results []resu
 		go func(ids []int) {
 			w := bufio.NewWriter(stdin)
 			for _, i := range ids {
-				fmt.Fprintf(w, "%d %s\n", i, cases[i].args())
+				fmt.Fprintf(w, "%d %s %s\n", i, cases[i].op(), cases[i].args())
 			}
 			w.Flush()
 			stdin.Close()
@@ -856,7 +1193,12 @@ func main() {
 	}
 	if *one != "" {
 		c := parseCase(*one)
-		o := runCase(c, creds, *seed)
+		var o outcome
+		if c.pattern != "" {
+			o = runConc(c, creds, *seed)
+		} else {
+			o = runCase(c, creds, *seed)
+		}
 		fmt.Printf("1 %s %s | %s | %s | alloc=%d recv=%d frame=%d cut=%v\n# %s\n", c.op(), c.args(), o.res, strings.Join(o.feats, ","), o.alloc, o.recv, o.frame, o.cut, strings.Join(o.notes, "; "))
 		return
 	}
